@@ -404,17 +404,21 @@ def judge_broker(steps, obs):
             queues.add(st[1])
         elif st[0] in ("QB", "QU"):
             _, q, ex, key, args = st
-            if ex != "" and ex in exs and q in queues:       # the default exchange accepts neither bind nor unbind
+            if ex not in exs or q not in queues:
+                return None                                   # 404 closes the channel: nothing after it is meaningful
+            if ex != "":                                      # the default exchange accepts neither bind nor unbind
                 b = (q, ex, key, tuple(args))
                 (bound.add if st[0] == "QB" else bound.discard)(b)
         elif st[0] == "QDEL":
+            if st[1] not in queues:
+                return None                                   # 404
             queues.discard(st[1]); bound = {b for b in bound if b[0] != st[1]}
         elif st[0] == "PUB":
             _, ex, key, mand = st
             if ex == "":
                 want = {q for q in queues if q == key}        # default exchange: by queue name
             elif ex not in exs:
-                want = set()
+                return None                                   # 404, see above
             else:
                 ty = exs[ex]
                 want = {b[0] for b in bound if b[1] == ex and (ty == "fanout" or (ty == "direct" and b[2] == key) or
@@ -718,7 +722,7 @@ def run(res):
     if corr_broken:
         first = ("X|%d|%s|%s" % (bad_rows[0], pats[bad_rows[0]].hex(), row_res[bad_rows[0]]) if bad_rows else
                  "T|%s|%s|%s" % (pairs[bad_pairs[0]][0].hex(), pairs[bad_pairs[0]][1].hex(), pairs[bad_pairs[0]][2]) if bad_pairs else
-                 "R|" + json.dumps(routes[bad_routes[0]]))
+                 "R|" + json.dumps(routes[bad_routes[0]]) if bad_routes else "")
         if b_bad_model and not (bad_rows or bad_pairs or bad_routes):
             first = "broker script %s, steps %s" % (broker_ops(scripts[b_bad_model[0][0]])[0], b_bad_model[0][1])
         what.append("correspondence routing model/implementation differs on %d exhaustive rows, %d pairs, %d route cases, %d broker scripts (first: %s)"
